@@ -23,6 +23,9 @@ CHECKS = {
  "C10": ("exploration", "exhaustive enumeration of a bounded family of bundle-definition trees plus Hypothesis-generated deeper trees; oracle = reference flattener written from the statement",
          "For every tree of the enumerated family and sampled deeper/wider trees the exported module's ports (name, width, direction) and internal signals are compared with a reference flattener (names by path, parity of flips for declared ports, role source/sink rule, plain leaves undirected, internal instances -> signals); bundle connections are checked with the C01 isomorphism oracle.",
          "Trusts the reference flattener's reading of the statement (role directions not flipped); enumerated family complete only within its stated bounds."),
+ "C11": ("translation_validation", "round-trip property-based testing: to_proto(from_proto(P)) == P over generated designs, the corpus and a parameter-space sweep",
+         "Every package from generated designs (single top), the examples/built-in generators and a generated sweep of primitive / external-module parameters, spice types, port directions and literals is imported and re-exported; the result must equal the original message field by field, and the first differing field is reported.",
+         "Protobuf equality; tops recovered as un-instantiated imported modules in package order; sampled."),
  "C13": ("exploration", "property-based testing (Hypothesis) of parameter export and to_scalar against a reference encoder written from the statement",
          "Generated parameter assignments for all 21 primitives and dict/paramclass/Scalar external modules are exported with to_proto and every exported ParamValue (kind, digits, prefix, text, double bits, omission of None, VLSIR primitive name and pulse renaming) is compared with a reference encoder; to_scalar is checked on every value form.",
          "Trusts Decimal/Fraction and protobuf accessors; ambiguous strings and Decimal-typed external parameters are recorded only; sampling."),
